@@ -78,24 +78,26 @@ RML_PARSING_QUERY = """
 
     # Object --------------------------------------------------------------------------
             OPTIONAL {
-                ?_predicate_object_map rml:objectMap ?object_map .
-                ?object_map ?object_map_type ?object_map_value .
-                FILTER ( ?object_map_type IN (
-                            rml:constant, rml:template, rml:reference, rml:quotedTriplesMap, rml:functionExecution ) ) .
-                OPTIONAL { ?object_map rml:termType ?object_termtype . }
-                OPTIONAL {
-                    ?object_map ?lang_datatype ?lang_datatype_map .
-                    ?lang_datatype_map ?lang_datatype_map_type ?lang_datatype_map_value .
-                    # remove xsd:string data types as it is equivalent to not specifying any data type
-                    FILTER ( ?lang_datatype_map_value != <http://www.w3.org/2001/XMLSchema#string> ) .
-                    FILTER ( ?lang_datatype_map_type IN ( rml:constant, rml:template, rml:reference, rml:functionExecution ) ) .
+                {
+                    ?_predicate_object_map rml:objectMap ?object_map .
+                    ?object_map ?object_map_type ?object_map_value .
+                    FILTER ( ?object_map_type IN (
+                                rml:constant, rml:template, rml:reference, rml:quotedTriplesMap, rml:functionExecution ) ) .
+                    OPTIONAL { ?object_map rml:termType ?object_termtype . }
+                    OPTIONAL {
+                        ?object_map ?lang_datatype ?lang_datatype_map .
+                        ?lang_datatype_map ?lang_datatype_map_type ?lang_datatype_map_value .
+                        # remove xsd:string data types as it is equivalent to not specifying any data type
+                        FILTER ( ?lang_datatype_map_value != <http://www.w3.org/2001/XMLSchema#string> ) .
+                        FILTER ( ?lang_datatype_map_type IN ( rml:constant, rml:template, rml:reference, rml:functionExecution ) ) .
+                    }
+                } UNION {
+                    # a predicate-object map can have term-valued and referencing object maps at the same time
+                    ?_predicate_object_map rml:objectMap ?object_map .
+                    ?object_map rml:parentTriplesMap ?object_map_value .
+                    OPTIONAL { ?object_map rml:termType ?object_termtype . }
+                    BIND ( rml:parentTriplesMap AS ?object_map_type ) .
                 }
-            }
-            OPTIONAL {
-                ?_predicate_object_map rml:objectMap ?object_map .
-                ?object_map rml:parentTriplesMap ?object_map_value .
-                OPTIONAL { ?object_map rml:termType ?object_termtype . }
-                BIND ( rml:parentTriplesMap AS ?object_map_type ) .
             }
             OPTIONAL {
                 ?_predicate_object_map rml:graphMap ?graph_map .
